@@ -346,33 +346,24 @@ class Oracle:
 
 
 def _decode(v):
+    """TLC's <<status, tensor, amp, mag>> -> ("ok", rows of (re, im, mag), amp); mag is one bound per case."""
+    if v[0] not in ("ok", "ok-expr"):
+        return (v[0],)
+    amp, mag = Fr(v[2][0], v[2][1]), Fr(v[3][0], v[3][1])
+
+    def rows_of(t):
+        rows = []
+        for i in sorted(t):
+            rows.append([(Fr(t[i][j][0][0], t[i][j][0][1]), Fr(t[i][j][1][0], t[i][j][1][1]), mag) for j in sorted(t[i])])
+        return rows
+
     if v[0] == "ok-expr":
-        comps = []
-        for t in v[1]:
-            rows = []
-            for i in sorted(t):
-                row = []
-                for j in sorted(t[i]):
-                    (re, im), mag = t[i][j]
-                    row.append((Fr(re[0], re[1]), Fr(im[0], im[1]), Fr(mag[0], mag[1])))
-                rows.append(row)
-            comps.append(rows)
+        comps = [rows_of(t) for t in v[1]]
         # arrange as A[point][component][dof] flattened into one row vector
         ncomp, ndof, npts = len(comps), len(comps[0]), len(comps[0][0])
         flat = [comps[k][i][q] for q in range(npts) for k in range(ncomp) for i in range(ndof)]
-        return ("ok", [flat], Fr(v[2][0], v[2][1]))
-    if v[0] != "ok":
-        return (v[0],)
-    t = v[1]
-    amp = Fr(v[2][0], v[2][1])
-    rows = []
-    for i in sorted(t):
-        row = []
-        for j in sorted(t[i]):
-            (re, im), mag = t[i][j]
-            row.append((Fr(re[0], re[1]), Fr(im[0], im[1]), Fr(mag[0], mag[1])))
-        rows.append(row)
-    return ("ok", rows, amp)
+        return ("ok", [flat], amp)
+    return ("ok", rows_of(v[1]), amp)
 
 
 # ---------------------------------------------------------------------------
@@ -715,6 +706,9 @@ def run_items(chk, items, nworkers=4, module_size=8):
                             "ffcx_error": sk.get("ffcx_error", False), "missing_kernel": sk.get("missing_kernel", False),
                             "tb": sk.get("tb", "")})
             for m in mm["meas"]:
+                if m["case"] is None:
+                    out.append({"item": ids[m["item"]], "meas": m, "status": "noexp"})
+                    continue
                 e = exp[m["case"] - 1]
                 rec = {"item": ids[m["item"]], "meas": m, "status": e[0], "case_data": fem["cases"][m["case"] - 1]}
                 if e[0] == "ok":
@@ -747,6 +741,8 @@ def report(chk, items, recs, pid_filter=None):
             continue
         if r["status"] in ("out-of-range", "overflow"):
             oor += 1
+            continue
+        if r["status"] == "noexp":
             continue
         if r["status"] != "ok":
             raise MachineryError(f"{lab}: Fem.tla says {r['status']}")
@@ -805,7 +801,7 @@ def interior_pair(prog: Program, rnd: random.Random, fplus: int):
         xm = [None] * nv
         for i, slot in enumerate(perm):
             xm[slot] = W[i]
-        fminus = perm[nv - 1]                   # facet opposite the new vertex
+        fminus = perm[nv - 1] if td > 1 else perm[0]   # facet opposite the new vertex (interval: the shared vertex itself)
         match = [perm[i] for i in range(len(F))]
         return fminus, xp, xm, match
     # hypercubes: neighbour by translation, then a random symmetry of the reference cube renumbers it
